@@ -559,7 +559,7 @@ def run(tier: str, seed: int) -> Result:
                     # this tree reaches the file system in a way the in-process log does not follow)
                     raise HarnessError(f'raw-operation log of {case} (overwrite={ow}) differs from the system calls strace sees: log {want[:12]} ... strace {got[:12]} ...')
         # task types defined in the main script, real spawn (and fork) workers killed mid-overwrite
-        mk = [('spawn', k) for k in (range(1, nl + 1) if tier != 'quick' else range(2, nl + 1, 7))] + [('fork', k) for k in (range(1, nl + 1, 3) if tier != 'quick' else range(3, nl + 1, 17))]
+        mk = [('spawn', k) for k in range(1, nl + 1)] + [('fork', k) for k in (range(1, nl + 1, 3) if tier != 'quick' else range(3, nl + 1, 17))]
         n_main = n_main_killed = 0
         for res, killed in pmap(main_script_kill_case, mk):
             n_main += 1
